@@ -244,23 +244,32 @@ Definition decide (conc : bool) (q : bytes) : option (Z * bytes) :=
 
 (* st is the reader's state after the bytes q of a still unterminated line, the table having been rs0 at the
    start of that line *)
+Definition RepNE (conc : bool) (rs0 : reqtab) (q : bytes) (st : hstate) : Prop :=
+  match decide conc q with
+  | None => h_rbuf st = q /\ h_cur st = None /\ h_ign st = false /\ h_reqs st = rs0
+  | Some (i, e) =>
+      h_rbuf st = [] /\
+      match pop_request conc i rs0 with
+      | Some (tag, rs1) =>
+          h_ign st = false /\ h_reqs st = rs1 /\
+          exists w acc, h_cur st = Some (tag, acc) /\ forallb isspace w = true /\ e = w ++ acc /\
+                        (conc = false -> w = [])
+      | None => h_cur st = None /\ h_ign st = true /\ h_reqs st = rs0
+      end
+  end.
+
 Definition Rep (conc : bool) (rs0 : reqtab) (q : bytes) (st : hstate) : Prop :=
   h_closed st = false /\ h_queue st = [] /\
   match q with
   | [] => h_rbuf st = [] /\ h_cur st = None /\ h_ign st = false /\ h_reqs st = rs0
-  | _ => match decide conc q with
-         | None => h_rbuf st = q /\ h_cur st = None /\ h_ign st = false /\ h_reqs st = rs0
-         | Some (i, e) =>
-             h_rbuf st = [] /\
-             match pop_request conc i rs0 with
-             | Some (tag, rs1) =>
-                 h_ign st = false /\ h_reqs st = rs1 /\
-                 exists w acc, h_cur st = Some (tag, acc) /\ forallb isspace w = true /\ e = w ++ acc /\
-                               (conc = false -> w = [])
-             | None => h_cur st = None /\ h_ign st = true /\ h_reqs st = rs0
-             end
-         end
+  | _ => RepNE conc rs0 q st
   end.
+
+Lemma Rep_ne conc rs0 q st : q <> [] ->
+  (Rep conc rs0 q st <-> h_closed st = false /\ h_queue st = [] /\ RepNE conc rs0 q st).
+Proof. intros H. unfold Rep. destruct q; [congruence| tauto]. Qed.
+
+Ltac hsimp := cbn [h_cur h_queue h_rbuf h_ign h_reqs h_next h_closed kick set_cur set_rbuf app fst snd clear_ign andb negb].
 
 Lemma kick_nil lim st : h_queue st = [] -> kick lim (h_queue st) st = st.
 Proof. intros H. rewrite H. destruct st; cbn in *. now subst. Qed.
@@ -293,4 +302,336 @@ Proof.
     destruct (IH rs1 st1 F1) as (st2 & E2 & F2). rewrite E2.
     destruct (spec_lines (hc_conc c) rs1 ls) as [rs2 o2]. cbn [fst snd] in *.
     exists st2. split; [reflexivity| exact F2].
+Qed.
+
+(* L3: the unterminated tail of a read, starting from the initial state *)
+Lemma process_tail_fresh c rs st t :
+  fresh_st rs st -> t <> [] -> (hc_conc c = true -> nows t) ->
+  match process c false st t with
+  | Some (st2, o2) => o2 = [] /\ Rep (hc_conc c) rs t st2
+  | None => Rep (hc_conc c) rs t (set_rbuf st t)
+  end.
+Proof.
+  intros F Ht Hn. destruct st as [rb cu ig rq nx cl qu]. unfold fresh_st in F. cbn in F.
+  destruct F as (-> & -> & -> & -> & -> & ->).
+  unfold process. hsimp.
+  destruct (hc_conc c) eqn:Ec.
+  - (* concurrent *)
+    destruct (strtol t) as [i e] eqn:Es. hsimp.
+    destruct (hd_isspace e) eqn:He; hsimp.
+    + destruct (pop_request true i rs) as [[tag rs1]|] eqn:P; unfold deliver; hsimp.
+      * split; [reflexivity|]. apply Rep_ne; [exact Ht|]. hsimp. split; [reflexivity|]. split; [reflexivity|].
+        unfold RepNE, decide. rewrite Es. cbn [snd]. rewrite He, P. hsimp.
+        repeat split; try reflexivity.
+        destruct (skip_ws_split e) as (w & Hw1 & Hw2). exists w, (skip_ws e).
+        repeat split; try assumption; try reflexivity. discriminate.
+      * split; [reflexivity|]. apply Rep_ne; [exact Ht|]. hsimp. split; [reflexivity|]. split; [reflexivity|].
+        unfold RepNE, decide. rewrite Es. cbn [snd]. rewrite He, P. hsimp. repeat split; reflexivity.
+    + apply Rep_ne; [exact Ht|]. hsimp. split; [reflexivity|]. split; [reflexivity|].
+      unfold RepNE, decide. rewrite Es. cbn [snd]. rewrite He. hsimp. repeat split; reflexivity.
+  - (* one request at a time *)
+    hsimp.
+    destruct (pop_request false 0%Z rs) as [[tag rs1]|] eqn:P; unfold deliver; hsimp.
+    + split; [reflexivity|]. apply Rep_ne; [exact Ht|]. hsimp. split; [reflexivity|]. split; [reflexivity|].
+      unfold RepNE, decide. rewrite P. hsimp.
+      repeat split; try reflexivity. exists [], t. repeat split; reflexivity.
+    + split; [reflexivity|]. apply Rep_ne; [exact Ht|]. hsimp. split; [reflexivity|]. split; [reflexivity|].
+      unfold RepNE, decide. rewrite P. hsimp. repeat split; reflexivity.
+Qed.
+
+Lemma Rep_fresh conc rs st : Rep conc rs [] st <-> fresh_st rs st.
+Proof. unfold Rep, fresh_st. tauto. Qed.
+
+Lemma decide_app conc q x i e :
+  q <> [] -> (conc = true -> nows q) -> decide conc q = Some (i, e) ->
+  decide conc (q ++ x) = Some (i, e ++ x).
+Proof.
+  unfold decide. intros Hq Hn. destruct conc.
+  - destruct (hd_isspace (snd (strtol q))) eqn:He; [|discriminate].
+    intros E. injection E as E. rewrite (strtol_app_inner q x He (Hn eq_refl)). rewrite E. cbn [fst snd].
+    assert (He' : hd_isspace (e ++ x) = true).
+    { rewrite E in He. cbn [snd] in He. destruct e; [discriminate He| exact He]. }
+    now rewrite He'.
+  - intros E. injection E as <- <-. reflexivity.
+Qed.
+
+Lemma nows_app q x : q <> [] -> nows (q ++ x) -> nows q.
+Proof. destruct q; [congruence|]. unfold nows. cbn [app hd_isspace]. auto. Qed.
+
+(* more bytes of the same line, no LF yet *)
+Lemma tail_rep c rs0 q st x :
+  Rep (hc_conc c) rs0 q st -> noLF x -> (hc_conc c = true -> nows (q ++ x)) ->
+  exists st', body2 c (set_rbuf st []) [] (h_rbuf st ++ x) = (st', []) /\ Rep (hc_conc c) rs0 (q ++ x) st'.
+Proof.
+  intros R Hx Hn. unfold body2. cbn [process_lines].
+  assert (Fr : forall st0, fresh_st rs0 st0 -> forall t, (hc_conc c = true -> nows t) ->
+               exists st', match t with
+                           | [] => (st0, [])
+                           | _ :: _ => match process c false st0 t with
+                                       | Some (st2, o2) => (st2, [] ++ o2)
+                                       | None => (set_rbuf st0 t, [])
+                                       end
+                           end = (st', []) /\ Rep (hc_conc c) rs0 t st').
+  { intros st0 F t Ht. destruct t as [|t0 t'].
+    - exists st0. split; [reflexivity| now apply Rep_fresh].
+    - pose proof (process_tail_fresh c rs0 st0 (t0 :: t') F ltac:(discriminate) Ht) as P.
+      destruct (process c false st0 (t0 :: t')) as [[st2 o2]|].
+      + destruct P as [-> P]. exists st2. split; [reflexivity| exact P].
+      + eexists. split; [reflexivity| exact P]. }
+  destruct (list_eq_dec N.eq_dec q []) as [->|Hq].
+  - (* start of a line *)
+    apply Rep_fresh in R. destruct st as [rb cu ig rq nx cl qu]. unfold fresh_st in R. cbn in R.
+    destruct R as (-> & -> & -> & -> & -> & ->). hsimp.
+    apply Fr; [unfold fresh_st; cbn; tauto| exact Hn].
+  - apply Rep_ne in R; [|exact Hq]. destruct R as (Hc & Hqu & R). unfold RepNE in R.
+    assert (Hnq : hc_conc c = true -> nows q) by (intros E; exact (nows_app q x Hq (Hn E))).
+    assert (Hqx : q ++ x <> []) by (intros E; apply app_eq_nil in E as [E _]; congruence).
+    destruct (decide (hc_conc c) q) as [[i e]|] eqn:D.
+    + (* number already seen *)
+      destruct R as (Hb & R). rewrite Hb. cbn [app].
+      pose proof (decide_app (hc_conc c) q x i e Hq Hnq D) as D'.
+      destruct x as [|x0 x'].
+      * exists (set_rbuf st []). split; [reflexivity|]. rewrite app_nil_r.
+        apply Rep_ne; [exact Hq|]. destruct st; cbn in *. subst. repeat split; try reflexivity.
+        unfold RepNE. rewrite D. split; [reflexivity| exact R].
+      * destruct (pop_request (hc_conc c) i rs0) as [[tag rs1]|] eqn:P.
+        -- destruct R as (Hi & Hr & w & acc & Hcu & Hw & He & Hw0).
+           destruct st as [rb cu ig rq nx cl qu]. cbn in Hc, Hqu, Hb, Hi, Hr, Hcu. subst.
+           unfold process. hsimp. unfold deliver. hsimp. eexists. split; [reflexivity|].
+           apply Rep_ne; [exact Hqx|]. hsimp. split; [reflexivity|]. split; [reflexivity|].
+           unfold RepNE. rewrite D', P. hsimp.
+           repeat split; try reflexivity. exists w, (acc ++ x0 :: x'). repeat split; try assumption.
+           now rewrite app_assoc.
+        -- destruct R as (Hcu & Hi & Hr).
+           destruct st as [rb cu ig rq nx cl qu]. cbn in Hc, Hqu, Hb, Hi, Hr, Hcu. subst.
+           unfold process. hsimp. unfold deliver. hsimp. eexists. split; [reflexivity|].
+           apply Rep_ne; [exact Hqx|]. hsimp. split; [reflexivity|]. split; [reflexivity|].
+           unfold RepNE. rewrite D', P. hsimp. repeat split; reflexivity.
+    + (* number not complete yet: the line so far is still in rbuf *)
+      destruct R as (Hb & Hcu & Hi & Hr). rewrite Hb.
+      destruct st as [rb cu ig rq nx cl qu]. cbn in Hc, Hqu, Hb, Hi, Hr, Hcu. subst. hsimp.
+      apply (Fr (mkH [] None false rs0 nx false [])); [unfold fresh_st; cbn; tauto| exact Hn].
+Qed.
+
+Lemma strip_cr_cases q : q <> [] ->
+  (strip_cr q = q) \/ (exists q', q = q' ++ [CR] /\ strip_cr q = q').
+Proof.
+  intros H. unfold strip_cr. destruct q as [|q0 q1]; [congruence|].
+  destruct (last (q0 :: q1) 0 =? CR) eqn:E; [|left; reflexivity].
+  right. exists (removelast (q0 :: q1)). split; [|reflexivity].
+  apply N.eqb_eq in E. rewrite <- E. apply app_removelast_last. discriminate.
+Qed.
+
+Lemma decide_conc q i e : decide true q = Some (i, e) -> strtol q = (i, e) /\ hd_isspace e = true.
+Proof.
+  unfold decide. destruct (hd_isspace (snd (strtol q))) eqn:H; [|discriminate].
+  intros E. injection E as E. rewrite E in H. split; [exact E| exact H].
+Qed.
+
+(* the specification's reading of the complete line q ++ a, given what the reader decided after q *)
+Lemma spec_line_determined conc rs0 q a i e w acc :
+  q <> [] -> (conc = true -> nows q) -> decide conc q = Some (i, e) ->
+  forallb isspace w = true -> e = w ++ acc -> (conc = false -> w = []) ->
+  exists text', spec_line conc rs0 (q ++ a) =
+                match pop_request conc i rs0 with
+                | Some (tag, rs1) => (rs1, [(tag, Some text')])
+                | None => (rs0, [])
+                end /\ trim text' = trim (acc ++ strip_cr a).
+Proof.
+  intros Hq Hn D Hw He Hw0. unfold spec_line.
+  destruct a as [|a0 a1].
+  - (* the LF is the first byte of the read *)
+    rewrite app_nil_r. cbn [strip_cr app]. rewrite app_nil_r.
+    destruct (strip_cr_cases q Hq) as [Es|(q' & Eq & Es)]; rewrite Es.
+    + destruct conc.
+      * apply decide_conc in D as [D1 D2]. rewrite D1. exists (skip_ws e). split; [reflexivity|].
+        rewrite trim_skip_ws, He. now apply trim_ws_prefix.
+      * unfold decide in D. injection D as <- <-. rewrite (Hw0 eq_refl) in He. cbn [app] in He. subst acc.
+        exists q. split; reflexivity.
+    + destruct conc.
+      * apply decide_conc in D as [D1 D2]. specialize (Hn eq_refl).
+        assert (Hq' : q' <> []).
+        { intros ->. subst q. cbn [app] in Hn. unfold nows in Hn. cbn in Hn. discriminate. }
+        assert (Hn' : nows q') by (subst q; exact (nows_app q' [CR] Hq' Hn)).
+        pose proof (strtol_app_stop q' [CR] Hq' Hn' ltac:(reflexivity)) as S.
+        rewrite <- Eq, D1 in S. destruct (strtol q') as [i' e'] eqn:S'. cbn [fst snd] in S.
+        injection S as -> ->. exists (skip_ws e'). split; [reflexivity|].
+        rewrite trim_skip_ws. rewrite <- (trim_snoc_ws e' CR eq_refl). rewrite He. now apply trim_ws_prefix.
+      * unfold decide in D. injection D as <- <-. rewrite (Hw0 eq_refl) in He. cbn [app] in He. subst acc.
+        exists q'. split; [reflexivity|]. rewrite Eq. symmetry. now apply trim_snoc_ws.
+  - set (a := a0 :: a1) in *. rewrite (strip_cr_app q a ltac:(discriminate)).
+    destruct conc.
+    + pose proof (decide_app true q (strip_cr a) i e Hq Hn D) as D'.
+      apply decide_conc in D' as [D1 D2]. rewrite D1. exists (skip_ws (e ++ strip_cr a)). split; [reflexivity|].
+      rewrite trim_skip_ws, He, <- app_assoc. now apply trim_ws_prefix.
+    + unfold decide in D. injection D as <- <-. rewrite (Hw0 eq_refl) in He. cbn [app] in He. subst acc.
+      exists (q ++ strip_cr a). split; reflexivity.
+Qed.
+
+(* L5: the LF of the current line arrives (after the bytes a) *)
+Lemma finish_line c rs0 q st a :
+  Rep (hc_conc c) rs0 q st -> (hc_conc c = true -> q <> [] -> nows q) ->
+  exists st' d, process c true (set_rbuf st []) (h_rbuf st ++ a) = Some (st', d) /\
+                dsim d (snd (spec_line (hc_conc c) rs0 (q ++ a))) /\
+                fresh_st (fst (spec_line (hc_conc c) rs0 (q ++ a))) st'.
+Proof.
+  intros R Hn.
+  assert (Fr : forall st0 l, fresh_st rs0 st0 ->
+               exists st' d, process c true st0 l = Some (st', d) /\
+                             dsim d (snd (spec_line (hc_conc c) rs0 l)) /\
+                             fresh_st (fst (spec_line (hc_conc c) rs0 l)) st').
+  { intros st0 l F. destruct (process_fresh c rs0 st0 l F) as (st' & E & F').
+    exists st', (snd (spec_line (hc_conc c) rs0 l)). split; [exact E|]. split; [apply dsim_refl| exact F']. }
+  destruct (list_eq_dec N.eq_dec q []) as [->|Hq].
+  - apply Rep_fresh in R. destruct st as [rb cu ig rq nx cl qu]. unfold fresh_st in R. cbn in R.
+    destruct R as (-> & -> & -> & -> & -> & ->). hsimp. apply Fr. unfold fresh_st. cbn. tauto.
+  - apply Rep_ne in R; [|exact Hq]. destruct R as (Hc & Hqu & R). unfold RepNE in R.
+    destruct (decide (hc_conc c) q) as [[i e]|] eqn:D.
+    + destruct R as (Hb & R). rewrite Hb. cbn [app].
+      destruct (pop_request (hc_conc c) i rs0) as [[tag rs1]|] eqn:P.
+      * destruct R as (Hi & Hr & w & acc & Hcu & Hw & He & Hw0).
+        destruct (spec_line_determined (hc_conc c) rs0 q a i e w acc Hq (fun E => Hn E Hq) D Hw He Hw0)
+          as (text' & Es & Et). rewrite P in Es.
+        destruct st as [rb cu ig rq nx cl qu]. cbn in Hc, Hqu, Hb, Hi, Hr, Hcu. subst rb cu ig rq cl qu.
+        unfold process. hsimp. unfold deliver. hsimp. eexists. eexists. split; [reflexivity|].
+        rewrite Es. cbn [fst snd]. split.
+        -- constructor; [|constructor]. split; [reflexivity|]. cbn [snd]. now symmetry.
+        -- unfold fresh_st. cbn. tauto.
+      * destruct R as (Hcu & Hi & Hr).
+        destruct (spec_line_determined (hc_conc c) rs0 q a i e [] e Hq (fun E => Hn E Hq) D eq_refl eq_refl
+                    (fun _ => eq_refl)) as (text' & Es & Et). rewrite P in Es.
+        destruct st as [rb cu ig rq nx cl qu]. cbn in Hc, Hqu, Hb, Hi, Hr, Hcu. subst rb cu ig rq cl qu.
+        unfold process. hsimp. unfold deliver. hsimp. eexists. eexists. split; [reflexivity|].
+        rewrite Es. cbn [fst snd]. split; [constructor|]. unfold fresh_st. cbn. tauto.
+    + destruct R as (Hb & Hcu & Hi & Hr). rewrite Hb.
+      destruct st as [rb cu ig rq nx cl qu]. cbn in Hc, Hqu, Hb, Hi, Hr, Hcu. subst. hsimp.
+      apply Fr. unfold fresh_st. cbn. tauto.
+Qed.
+
+Lemma Rep_rbuf conc rs0 q st : Rep conc rs0 q st -> h_rbuf st = q \/ h_rbuf st = [].
+Proof.
+  intros R. destruct (list_eq_dec N.eq_dec q []) as [->|Hq].
+  - apply Rep_fresh in R. left. apply R.
+  - apply Rep_ne in R; [|exact Hq]. destruct R as (_ & _ & R). unfold RepNE in R.
+    destruct (decide conc q) as [[i e]|]; [right|left]; apply R.
+Qed.
+
+Definition lines_all (s : bytes) : list bytes := fst (split_lf s) ++ [snd (split_lf s)].
+(* every line of the stream (the unterminated last one included) starts with a byte that is not a blank *)
+Definition wf (conc : bool) (s : bytes) : Prop := conc = true -> Forall nows (lines_all s).
+
+Lemma body_sim c rs0 q st chunk :
+  Rep (hc_conc c) rs0 q st -> noLF q -> wf (hc_conc c) (q ++ chunk) ->
+  exists st' ds, hread_body c st (h_rbuf st ++ chunk) = (st', ds) /\
+    dsim ds (snd (spec_lines (hc_conc c) rs0 (fst (split_lf (q ++ chunk))))) /\
+    Rep (hc_conc c) (fst (spec_lines (hc_conc c) rs0 (fst (split_lf (q ++ chunk))))) (snd (split_lf (q ++ chunk))) st'.
+Proof.
+  intros R Hq W. unfold hread_body.
+  assert (Hrb : noLF (h_rbuf st)) by (destruct (Rep_rbuf _ _ _ _ R) as [-> | ->]; [exact Hq| reflexivity]).
+  destruct (split_first_lf chunk) as [Hc|(a & b & -> & Ha)].
+  - rewrite (split_lf_nolf (h_rbuf st ++ chunk)) by (now apply noLF_app).
+    rewrite (split_lf_nolf (q ++ chunk)) by (now apply noLF_app). cbn [fst snd spec_lines].
+    assert (Hn : hc_conc c = true -> nows (q ++ chunk)).
+    { intros E. specialize (W E). unfold lines_all in W.
+      rewrite (split_lf_nolf (q ++ chunk)) in W by (now apply noLF_app). cbn [fst snd app] in W.
+      now inversion W. }
+    destruct (tail_rep c rs0 q st chunk R Hc Hn) as (st' & E & R'). exists st', []. split; [exact E|].
+    split; [constructor| exact R'].
+  - rewrite (app_assoc (h_rbuf st)), (app_assoc q).
+    rewrite (split_lf_line (h_rbuf st ++ a) b) by (now apply noLF_app).
+    rewrite (split_lf_line (q ++ a) b) by (now apply noLF_app). cbn [fst snd].
+    assert (W1 : hc_conc c = true -> nows (q ++ a) /\ nows (snd (split_lf b))).
+    { intros E. specialize (W E). unfold lines_all in W. rewrite (app_assoc q) in W.
+      rewrite (split_lf_line (q ++ a) b) in W by (now apply noLF_app). cbn [fst snd app] in W.
+      inversion W as [|? ? W2 W3]; subst. split; [exact W2|].
+      apply Forall_app in W3 as [_ W3]. now inversion W3. }
+    assert (Hn : hc_conc c = true -> q <> [] -> nows q).
+    { intros E Hne. exact (nows_app q a Hne (proj1 (W1 E))). }
+    destruct (finish_line c rs0 q st a R Hn) as (st1 & d1 & E1 & S1 & F1).
+    unfold body2. cbn [process_lines]. rewrite E1. cbn [spec_lines].
+    destruct (spec_line (hc_conc c) rs0 (q ++ a)) as [rs1 o1]. cbn [fst snd] in *.
+    destruct (process_lines_fresh c rs1 st1 (fst (split_lf b)) F1) as (st2 & E2 & F2). rewrite E2.
+    destruct (spec_lines (hc_conc c) rs1 (fst (split_lf b))) as [rs2 o2]. cbn [fst snd] in *.
+    destruct (snd (split_lf b)) as [|t0 t1] eqn:Et.
+    + exists st2, (d1 ++ o2). split; [reflexivity|]. split.
+      * apply dsim_app; [exact S1| apply dsim_refl].
+      * now apply Rep_fresh.
+    + pose proof (process_tail_fresh c rs2 st2 (t0 :: t1) F2 ltac:(discriminate)
+                    (fun E => proj2 (W1 E))) as P.
+      destruct (process c false st2 (t0 :: t1)) as [[st3 o3]|].
+      * destruct P as [-> P]. exists st3, ((d1 ++ o2) ++ []). split; [reflexivity|]. split; [|exact P].
+        rewrite app_nil_r. apply dsim_app; [exact S1| apply dsim_refl].
+      * eexists. exists (d1 ++ o2). split; [reflexivity|]. split; [|exact P].
+        apply dsim_app; [exact S1| apply dsim_refl].
+Qed.
+
+Lemma hreads_cons c st ch r :
+  hreads c st (ch :: r) = (fst (hreads c (fst (hread c st ch)) r), snd (hread c st ch) ++ snd (hreads c (fst (hread c st ch)) r)).
+Proof.
+  unfold hreads. cbn [map hrun hstep]. destruct (hread c st ch) as [st1 o1]. cbn [fst snd].
+  destruct (hrun c st1 (map HRead r)) as [st2 o2]. reflexivity.
+Qed.
+
+Lemma hreads_closed c st chunks : h_closed st = true -> hreads c st chunks = (st, []).
+Proof.
+  intros H. induction chunks as [|ch r IH]; [reflexivity|].
+  rewrite hreads_cons. unfold hread. rewrite H. cbn [fst snd]. rewrite IH. reflexivity.
+Qed.
+
+Lemma lines_all_app x y :
+  lines_all (x ++ y) = fst (split_lf x) ++ lines_all (snd (split_lf x) ++ y).
+Proof. unfold lines_all. rewrite split_lf_app. cbn [fst snd]. now rewrite app_assoc. Qed.
+
+Lemma dsim_firstn_app a b c d k : dsim a b -> dsim c (firstn k d) -> dsim (a ++ c) (firstn (length b + k) (b ++ d)).
+Proof.
+  intros H1 H2. rewrite firstn_app_2. now apply dsim_app.
+Qed.
+
+(* the reads of a stream, cut in any way, call back what the specification says for its complete lines; if the
+   helper gets killed on the way ("spoke without being spoken to") a prefix of it *)
+Lemma frag_main c chunks : forall rs0 q st,
+  Rep (hc_conc c) rs0 q st -> noLF q -> wf (hc_conc c) (q ++ concat chunks) ->
+  (exists k, dsim (snd (hreads c st chunks))
+                  (firstn k (snd (spec_lines (hc_conc c) rs0 (fst (split_lf (q ++ concat chunks))))))) /\
+  (h_closed (fst (hreads c st chunks)) = false ->
+   dsim (snd (hreads c st chunks)) (snd (spec_lines (hc_conc c) rs0 (fst (split_lf (q ++ concat chunks)))))).
+Proof.
+  induction chunks as [|ch r IH]; intros rs0 q st R Hq W.
+  - cbn [concat]. rewrite app_nil_r. rewrite (split_lf_nolf q Hq). cbn [fst snd spec_lines hreads map hrun].
+    split; [exists 0%nat; constructor| intros _; constructor].
+  - rewrite hreads_cons. cbn [concat]. rewrite (app_assoc q).
+    assert (Hcl : h_closed st = false) by apply R.
+    destruct (h_pending st =? 0) eqn:Ep.
+    + assert (Eh : hread c st ch = (mkH [] (h_cur st) (h_ign st) (h_reqs st) (h_next st) true (h_queue st), []))
+        by (unfold hread; now rewrite Hcl, Ep).
+      rewrite Eh. cbn [fst snd]. rewrite hreads_closed by reflexivity. cbn [fst snd app h_closed].
+      split; [exists 0%nat; constructor| discriminate].
+    + assert (Eh : hread c st ch = hread_body c st (h_rbuf st ++ ch)) by (unfold hread; now rewrite Hcl, Ep).
+      rewrite Eh. clear Eh.
+      destruct (body_sim c rs0 q st ch R Hq) as (st1 & o1 & E1 & S1 & R1).
+      { intros E. specialize (W E). cbn [concat] in W. rewrite app_assoc, lines_all_app in W.
+        apply Forall_app in W as [W1 W2]. unfold lines_all. apply Forall_app. split; [exact W1|].
+        constructor; [|constructor].
+        (* the tail of q ++ ch: a prefix of the first line of what follows *)
+        destruct (snd (split_lf (q ++ ch))) as [|t0 t1] eqn:Et; [reflexivity|].
+        unfold lines_all in W2. cbn [app] in W2.
+        destruct (split_lf (t0 :: t1 ++ concat r)) as [ls p] eqn:Es.
+        assert (Hh : match ls with l :: _ => hd_isspace l = isspace t0 | [] => hd_isspace p = isspace t0 end).
+        { cbn [split_lf] in Es. destruct (split_lf (t1 ++ concat r)) as [ls' p'].
+          pose proof (split_lf_tail_nolf (q ++ ch)) as Hnl. rewrite Et in Hnl. unfold noLF in Hnl. cbn [forallb] in Hnl.
+          apply andb_prop in Hnl as [Hnl _]. destruct (t0 =? LF); [discriminate Hnl|].
+          destruct ls'; injection Es as <- <-; reflexivity. }
+        cbn [fst snd] in W2. unfold nows. cbn [hd_isspace].
+        destruct ls as [|l ls]; cbn [app] in W2; inversion W2 as [|? ? W3 _]; subst; unfold nows in W3; congruence. }
+      rewrite E1. cbn [fst snd].
+      rewrite split_lf_app. cbn [fst snd]. rewrite spec_lines_app. cbn [fst snd].
+      set (ls1 := fst (split_lf (q ++ ch))) in *. set (tl := snd (split_lf (q ++ ch))) in *.
+      set (rs1 := fst (spec_lines (hc_conc c) rs0 ls1)) in *.
+      assert (W' : wf (hc_conc c) (tl ++ concat r)).
+      { intros E. specialize (W E). cbn [concat] in W. rewrite app_assoc, lines_all_app in W.
+        apply Forall_app in W as [_ W2]. exact W2. }
+      destruct (IH rs1 tl st1 R1 (split_lf_tail_nolf (q ++ ch)) W') as ((k & I1) & I2).
+      split.
+      * exists (length (snd (spec_lines (hc_conc c) rs0 ls1)) + k)%nat. now apply dsim_firstn_app.
+      * intros Hc. apply dsim_app; [exact S1| exact (I2 Hc)].
 Qed.
